@@ -53,12 +53,12 @@ CleanB(p) ==
 
 \* carousel sessions for late join (three full cycles)
 CarP == (1..Len(Shapes)) \X (1..Len(Schemes)) \X BOOLEAN \X BOOLEAN \X { <<"delay", 400>>, <<"interval", 900>> } \X {"full", "obt"} \X {1, 2}
-        \X {0, 2, 3} \X {300, 2500}
+        \X {0, 2, 3} \X {300, 2500} \X {1, 2}     \* ... x slots of the queue (1: the transfers of two objects never overlap)
 CarB(p) ==
   LET sh == Shapes[p[1]] sc == Schemes[p[2]] fti == p[3] icenc == p[4] car == p[5] md == p[6] nobj == p[7] ce == p[8]
       E == IF ce = 0 THEN sh[2] ELSE sh[2] * 4 IN
   [ fam |-> "car",
-    cfg |-> [scheme |-> 0, E |-> BigE, B |-> 8, interleave |-> 2, queues |-> << <<0, 2>> >>, mode |-> md,
+    cfg |-> [scheme |-> 0, E |-> BigE, B |-> 8, interleave |-> 2, queues |-> << <<0, p[10]>> >>, mode |-> md,
              fdt_car |-> <<"delay", p[9]>>],
     objs |-> (<< [clen |-> sh[1], oti |-> Oti(sc, E, sh[3], IF sc = 0 THEN 0 ELSE 1, fti), car |-> car,
                   cenc |-> ce, icenc |-> icenc, md5 |-> (nobj = 1)] >>
@@ -297,7 +297,7 @@ ChanBuild(s, k) ==
 
 -----------------------------------------------------------------------------
 VARIABLES a, k
-Init == IF Mode = "sess" THEN a \in SessParams /\ k = 0 /\ (Family = "small" => (a[10] => a[4] = 1))    \* (no duplicate shapes)
+Init == IF Mode = "sess" THEN a \in SessParams /\ k = 0 /\ (Family = "small" => (a[10] => a[4] = 1)) /\ (Family = "car" => (a[10] = 1 => a[7] = 2))    \* (no duplicate shapes)
         ELSE a \in ChanSessions /\ k \in ChanK(a)
 Next == UNCHANGED <<a, k>>
 Spec == Init /\ [][Next]_<<a, k>>
